@@ -1,9 +1,11 @@
 INIT TInit
 NEXT TNext
 CONSTANTS
+  MaxRuns = 2
+  ReuseStaleTemp = FALSE
   Scenarios = {}
   TraceFile = "traces.ndjson"
 CONSTRAINT Track
-INVARIANTS Atomic LaterUntouched EarlierDone NoTempAfterErrReturn SuccessMeansAll RefusedBeforeModify LeftoverOnlyByCrash
+INVARIANTS Atomic LaterUntouched EarlierDone NoTempAfterErrReturn SuccessMeansAll RefusedBeforeModify LeftoverOnlyByCrash FreshTemp
 POSTCONDITION Report
 CHECK_DEADLOCK FALSE
